@@ -5,6 +5,9 @@ import Biogo.Model.AlignAff
 import Biogo.Spec.AffPairs
 import Biogo.Proofs.TraceWF
 import Biogo.Proofs.NWFaith
+import Biogo.Proofs.SWFaith
+import Biogo.Proofs.FitFaith
+import Biogo.Proofs.TraceLegacy
 
 namespace Biogo.Properties.C09_aff
 open Biogo.Spec.Alignment Biogo.AlignAff Biogo.Spec.AffPairs
@@ -136,21 +139,72 @@ example : fitAlign (sc [[0, -1, -1], [-1, 1, -1], [-1, -1, 1]]) (-2) [1, 2, 1] [
     .ok [⟨1, 3, 0, 2, 2⟩] := by decide +kernel
 
 /-- "each pair's reported score equals the score recomputed from the letters, matrix and gap
-    parameters" — **the part that holds for `NWAffine`** (`_partial`, finding K5).  Full statement:
-
-        nwAlign S open r q = .ok ps → faithful S open r q ps = true
-
-    It is false of the code (`pair_scores_not_faithful`).  What holds for all matrices, gap-open
-    values and non-empty sequences: whenever the traceback only takes `case`s that belong to its
-    current layer (the ghost flag of the model stays `false`), every block carries the sum of its
-    letter pairs and every gap pair `gapOpen` plus its per-letter gap scores. -/
-theorem pair_scores_faithful_partial (S : Matrix) (gapOpen : Int) (r q : List Nat) (hr : r ≠ [])
-    (hq : q ≠ []) (ps : List Pair) (h : nwAlignT S gapOpen r q = .ok (ps, false)) :
+    parameters" — **`NWAffine`, the full statement** (after the repair of K5: every `case` of
+    the traceback switch is guarded by the layer it is a legal predecessor of).  For all
+    matrices, gap-open values and non-empty sequences: every block carries the sum of its
+    letter pairs and every gap pair `gapOpen` plus its per-letter gap scores, the leading gap
+    block included. -/
+theorem pair_scores_faithful (S : Matrix) (gapOpen : Int) (r q : List Nat) (hr : r ≠ [])
+    (hq : q ≠ []) (ps : List Pair) (h : nwAlign S gapOpen r q = .ok ps) :
     faithful S gapOpen r q ps = true :=
   Biogo.Proofs.NWFaith.nwAlign_faithful S gapOpen r q hr hq ps h
 
-/-- non-vacuity: a traceback with a gap and no tie -/
+/-- non-vacuity: a traceback with a gap; and the K5 witness, now faithful -/
 example : nwAlign (sc [[0, -1, -1], [-1, 1, -1], [-1, -1, 1]]) (-2) [1, 2, 1] [1, 1] =
+      .ok [⟨0, 1, 0, 1, 1⟩, ⟨1, 2, 1, 1, -3⟩, ⟨2, 3, 1, 2, 1⟩] := by decide +kernel
+
+/-- "each pair's reported score equals the score recomputed from the letters, matrix and gap
+    parameters" — **`SWAffine`**, for all matrices with non-positive gap scores (the domain of
+    C08/C09), all gap-open values and all sequences.  The local traceback stops on a value 0;
+    with gap scores ≤ 0 a gap run that has not been charged its `gapOpen` yet never stands on a
+    0 (`Proofs/SWFaith`), so the first pair is a block or a complete gap. -/
+theorem pair_scores_faithful_swAffine (S : Matrix) (gapOpen : Int) (hg : ∀ x, S x 0 ≤ 0 ∧ S 0 x ≤ 0)
+    (r q : List Nat) (ps : List Pair) (h : swAlign S gapOpen r q = .ok ps) :
+    faithful S gapOpen r q ps = true :=
+  Biogo.Proofs.SWFaith.swAlign_faithful S gapOpen hg r q ps h
+
+/-- non-vacuity: a local alignment with a gap -/
+example : swAlign (sc [[0, -1, -1], [-1, 2, -1], [-1, -1, 2]]) (-1) [1, 1, 2, 1, 1] [1, 1, 1, 1] =
+    .ok [⟨0, 2, 0, 2, 4⟩, ⟨2, 3, 2, 2, -2⟩, ⟨3, 5, 2, 4, 4⟩] := by decide +kernel
+
+/-- The hypothesis on the gap scores is needed: with a positive gap score a gap-layer value
+    can extend a clipped 0, the traceback stops there and the gap pair is reported without its
+    `gapOpen` (gap against a query letter scores +1, gap-open −1, `r = cac`, `q = cc`: the
+    gap pair against query `[0,1)` is reported with 1, recomputed 0). -/
+theorem pair_scores_swAffine_needs_nonpositive_gaps :
+    ∃ (M : List (List Int)) (gapOpen : Int) (r q : List Nat) (ps : List Pair),
+      swAlign (sc M) gapOpen r q = .ok ps ∧ faithful (sc M) gapOpen r q ps = false :=
+  ⟨[[0, 1, 1], [-1, 2, -5], [-1, -5, 2]], -1, [2, 1, 2], [2, 2], [⟨2, 2, 0, 1, 1⟩, ⟨2, 3, 1, 2, 2⟩],
+    by decide +kernel, by decide +kernel⟩
+
+/-- "each pair's reported score equals the score recomputed from the letters, matrix and gap
+    parameters" — **`FittedAffine`**, for all matrices, gap-open values and non-empty
+    sequences, the leading query gap (fix K2b) included.  The loop can only stop inside a
+    block: row 0 holds values only in the `left` layer, the free-prefix column 0 only in the
+    `up` layer (`Proofs/FitFaith`). -/
+theorem pair_scores_faithful_fittedAffine (S : Matrix) (gapOpen : Int) (r q : List Nat) (hr : r ≠ [])
+    (hq : q ≠ []) (ps : List Pair) (h : fitAlign S gapOpen r q = .ok ps) :
+    faithful S gapOpen r q ps = true :=
+  Biogo.Proofs.FitFaith.fitAlign_faithful S gapOpen r q hr hq ps h
+
+/-- non-vacuity: a fitted alignment with a reference gap, and one with a leading query gap -/
+example : fitAlign (sc [[0, -1, -1], [-1, 2, -1], [-1, -1, 2]]) (-1) [2, 1, 1, 2, 1, 1, 2] [1, 1, 1, 1] =
+    .ok [⟨1, 3, 0, 2, 4⟩, ⟨3, 4, 2, 2, -2⟩, ⟨4, 6, 2, 4, 4⟩] := by decide +kernel
+example : fitAlign (sc [[0, -1, -1], [-1, 2, -1], [-1, -1, 2]]) (-1) [1, 1] [2, 2, 1, 2, 1] =
+    .ok [⟨0, 0, 0, 2, -3⟩, ⟨0, 1, 2, 3, 2⟩, ⟨1, 1, 3, 4, -2⟩, ⟨1, 2, 4, 5, 2⟩] := by decide +kernel
+
+/-- The statement that held before the repair, kept for either switch: whenever the traceback
+    (layer-aware, `aware = true`, or the layer-blind one it replaced, `aware = false`) only
+    takes `case`s that belong to its current layer (the ghost flag of the model stays `false`),
+    the pair scores are the recomputed ones.  (It was `_partial` while the code had the
+    layer-blind switch; `pair_scores_faithful` is now the full statement.) -/
+theorem pair_scores_faithful_partial (aware : Bool) (S : Matrix) (gapOpen : Int) (r q : List Nat)
+    (hr : r ≠ []) (hq : q ≠ []) (ps : List Pair) (h : nwAlignT aware S gapOpen r q = .ok (ps, false)) :
+    faithful S gapOpen r q ps = true :=
+  Biogo.Proofs.NWFaith.nwAlignT_faithful aware S gapOpen r q hr hq ps h
+
+/-- non-vacuity: a layer-blind traceback with a gap and no tie -/
+example : legacyPairs .nw (sc [[0, -1, -1], [-1, 1, -1], [-1, -1, 1]]) (-2) [1, 2, 1] [1, 1] =
       .ok [⟨0, 1, 0, 1, 1⟩, ⟨1, 2, 1, 1, -3⟩, ⟨2, 3, 1, 2, 1⟩] ∧
     tieSwitched .nw (sc [[0, -1, -1], [-1, 1, -1], [-1, -1, 1]]) (-2) [1, 2, 1] [1, 1] = false := by
   decide +kernel
@@ -160,18 +214,53 @@ def tieM : List (List Int) :=
   [[0, -1, -1, -1, -1], [-1, -10, -10, -10, -10], [-1, -10, -10, -10, -10], [-1, -10, -10, -10, -10],
    [-1, -10, -10, -10, -10]]
 
-/-- Refutation of "each pair's reported score equals the score recomputed from the letters,
-    matrix and gap parameters" for `NWAffine` (finding K5): with all letter pairs −10, gap
-    letters −1, gap-open −1, `r = aa`, `q = aaa` the last pair (gap in the reference against query `[2,3)`) is reported with −1
-    (no gap-open) although it is a gap of its own; recomputed −2.  The traceback compared
-    the value of the `up` layer with the `left`-extension candidate and took it. -/
-theorem pair_scores_not_faithful :
-    ∃ (M : List (List Int)) (gapOpen : Int) (r q : List Nat) (ps : List Pair),
+/-- **Why the repair was needed** (K5, fixed): the layer-blind switch (`legacyPairs`, the
+    traceback as it was before the repair) violates "each pair's reported score equals the score
+    recomputed from the letters, matrix and gap parameters".  With all letter pairs −10, gap
+    letters −1, gap-open −1, `r = aa`, `q = aaa` its last pair (gap in the reference against
+    query `[2,3)`) is reported with −1 (no gap-open) although it is a gap of its own; recomputed
+    −2.  It compared the value of the `up` layer with the `left`-extension candidate and took it.
+    On the same input the repaired traceback (`nwAlign`) returns faithful pairs with the same
+    total. -/
+theorem legacy_pair_scores_not_faithful :
+    ∃ (M : List (List Int)) (gapOpen : Int) (r q : List Nat) (ps ps' : List Pair),
       gapOpen ≤ 0 ∧ (∀ x, x < 5 → sc M x 0 ≤ 0 ∧ sc M 0 x ≤ 0) ∧
-      nwAlign (sc M) gapOpen r q = .ok ps ∧ wellFormed ps = true ∧
-      faithful (sc M) gapOpen r q ps = false ∧ tieSwitched .nw (sc M) gapOpen r q = true :=
+      legacyPairs .nw (sc M) gapOpen r q = .ok ps ∧ wellFormed ps = true ∧
+      faithful (sc M) gapOpen r q ps = false ∧ tieSwitched .nw (sc M) gapOpen r q = true ∧
+      nwAlign (sc M) gapOpen r q = .ok ps' ∧ faithful (sc M) gapOpen r q ps' = true ∧
+      total ps' = total ps :=
   ⟨tieM, -1, [1, 1], [1, 1, 1],
     [⟨0, 1, 0, 1, -10⟩, ⟨1, 1, 1, 2, -2⟩, ⟨1, 2, 2, 2, -2⟩, ⟨2, 2, 2, 3, -1⟩],
-    by decide, by decide, by decide +kernel, by decide, by decide +kernel, by decide +kernel⟩
+    [⟨0, 0, 0, 2, -3⟩, ⟨0, 1, 2, 3, -10⟩, ⟨1, 2, 3, 3, -2⟩],
+    by decide, by decide, by decide +kernel, by decide, by decide +kernel, by decide +kernel,
+    by decide +kernel, by decide +kernel, by decide⟩
+
+/-- **The repair of K5 changes nothing but the tie cases**: for all three affine aligners, every
+    matrix, gap-open value and pair of sequences, if the traceback as it was before the repair
+    (`legacyPairs`, layer-blind switch) returns `ps` without taking a `case` of another layer
+    (`tieSwitched = false`), the repaired aligner returns exactly `ps`.  (The driver evaluates
+    the same statement on the implementation's pairs: tags `legacy-same` / `legacy-tie`.) -/
+theorem k5_repair_conservative (w : Which) (S : Matrix) (gapOpen : Int) (r q : List Nat) (ps : List Pair)
+    (h : legacyPairs w S gapOpen r q = .ok ps) (ht : tieSwitched w S gapOpen r q = false) :
+    (alignT true w S gapOpen r q).map (·.1) = .ok ps := by
+  unfold legacyPairs at h
+  unfold tieSwitched at ht
+  cases hT : alignT false w S gapOpen r q with
+  | error e => rw [hT] at h; cases h
+  | ok res =>
+    obtain ⟨ps', t⟩ := res
+    rw [hT] at h ht
+    simp only [Except.map] at h
+    simp only [] at ht
+    cases h
+    subst ht
+    rw [Biogo.Proofs.TraceLegacy.alignT_legacy_agree w S gapOpen r q _ hT]
+    rfl
+
+/-- `alignT true` is the model the driver runs (`nwAlign`, `swAlign`, `fitAlign`) -/
+example (S : Matrix) (o : Int) (r q : List Nat) :
+    (alignT true .nw S o r q).map (·.1) = nwAlign S o r q ∧
+    (alignT true .sw S o r q).map (·.1) = swAlign S o r q ∧
+    (alignT true .fit S o r q).map (·.1) = fitAlign S o r q := ⟨rfl, rfl, rfl⟩
 
 end Biogo.Properties.C09_aff
